@@ -250,15 +250,17 @@ def build_driver(group):
 
 
 def build_harness(pkg, timeout=1500, features=None):
-    if not os.path.exists(os.path.join(HARNESS, "Cargo.lock")):
-        shutil.copy("/repo/Cargo.lock", os.path.join(HARNESS, "Cargo.lock"))
-    cmd = ["cargo", "build", "--release", "--offline", "-p", pkg]
+    """each harness crate is its own cargo workspace under harness/<pkg> (shared target dir, see harness/.cargo/config.toml)"""
+    d = os.path.join(HARNESS, pkg)
+    if not os.path.exists(os.path.join(d, "Cargo.lock")):
+        shutil.copy("/repo/Cargo.lock", os.path.join(d, "Cargo.lock"))
+    cmd = ["cargo", "build", "--release", "--offline"]
     if features:
         cmd += ["--features", features]
     t0 = time.time()
-    rc, out = sh(cmd, cwd=HARNESS, timeout=timeout)
+    rc, out = sh(cmd, cwd=d, timeout=timeout)
     if rc != 0:
-        raise BuildError("cargo build -p %s failed (the harness is built against /repo's working tree):\n%s" % (pkg, out[-4000:]))
+        raise BuildError("cargo build of %s failed (the harness is built against /repo's working tree):\n%s" % (pkg, out[-4000:]))
     return os.path.join(HARNESS, "target", "release", pkg), round(time.time() - t0, 1)
 
 
